@@ -138,7 +138,7 @@ def main():
         }],
         "checks": checks,
         "not_applicable": na,
-        "notes": "All claims are at level 'other' (static discipline checks). Quick tier: the rules on the current tree plus injected positive controls. Thorough tier: the same plus a model-generated single-site mutation sweep (every generated, compilable breaking edit of the property's constructs must be reported on its own construct; mutants are analysed as overlays, never executed). Known genuine defects are listed in KNOWN_FINDINGS.txt; fixed ones are 'fix:' commits in /repo. Independently seeded breaking changes and which rule reports each are under seeded/.",
+        "notes": "All claims are at level 'other' (static discipline checks). Quick tier: the rules on the current tree plus injected positive controls. Thorough tier: the same plus a model-generated single-site mutation sweep (every generated, compilable breaking edit of the property's constructs must be reported on its own construct; mutants are analysed as overlays, never executed). Known genuine defects are listed in KNOWN_FINDINGS.txt; fixed ones are 'fix:' commits in /repo. Independently seeded breaking changes and which rule reports each are under seeded/ (scripts/retry_all_seeds.sh); behaviour-preserving refactorings on which every check must stay silent are under benign/ (scripts/retry_all_benign.sh). The exploratory operators of the thorough tier (swap / delete / negate / weaken) assert recorded floors of reported mutants.",
     }
     with open(os.path.join(ROOT, "MANIFEST.json"), "w") as f:
         json.dump(manifest, f, indent=1)
